@@ -42,10 +42,35 @@ def build(spec, rng):
     raise ValueError(t)
 
 
+def arg_hashes(reg, v):
+    """The hashes a call is keyed with when the value is passed as an argument: by position,
+    in the surplus (variadic) positions, and by keyword."""
+    import hashlib
+
+    from redun.task import hash_args_eval
+
+    parts = []
+    for t, a, k in ((_fixed, (1, v), {}), (_var, (1, v), {}), (_var, (1, 2, v, v), {}),
+                    (_fixed, (1,), {"b": v})):
+        parts.extend(hash_args_eval(reg, t, a, k))
+    return hashlib.sha1("".join(parts).encode()).hexdigest()
+
+
 def main():
     rng = random.Random(int(sys.argv[1]))
     specs = json.load(sys.stdin)
+    from redun import task
     from redun.value import get_type_registry
+
+    global _fixed, _var
+
+    @task(namespace="hashnode")
+    def _fixed(a, b=None):
+        return a
+
+    @task(namespace="hashnode")
+    def _var(a, *rest):
+        return a
 
     reg = get_type_registry()
     out = []
@@ -55,7 +80,8 @@ def main():
             # the hash the scheduler keys arguments with, and the hash the backend records the
             # same argument / result under (record_value: get_hash(data=serialize()))
             iface = reg.get_value(v)
-            out.append(reg.get_hash(v) + "|" + iface.get_hash(data=iface.serialize()))
+            out.append(reg.get_hash(v) + "|" + iface.get_hash(data=iface.serialize())
+                       + "|" + arg_hashes(reg, v))
         except Exception as e:  # noqa
             out.append("ERR:" + type(e).__name__)
     json.dump(out, sys.stdout)
